@@ -105,7 +105,21 @@ pub fn all_ops(names: &[&str]) -> Vec<Op> {
         ops.push(expr_op(&format!("{} += {}", names[0], names[1])));
         ops.push(expr_op(&format!("{} = 1; {} = 2.5; {}", names[0], names[1], names[0])));
     }
-    ops.extend([Op::ClearVars, Op::ClearFuns, Op::Clear, Op::SetFn("f".into()), Op::SetFn("g".into()), Op::Toggle(true), Op::Toggle(false), Op::CloneCtx]);
+    // a user function named like a builtin, and calls that must reach it (or the builtin, or nothing)
+    ops.push(expr_op("typeof(1)"));
+    ops.push(expr_op("f(1) + len(\"ab\")"));
+    ops.extend([
+        Op::ClearVars,
+        Op::ClearFuns,
+        Op::Clear,
+        Op::SetFn("f".into()),
+        Op::SetFn("g".into()),
+        Op::SetFn("typeof".into()),
+        Op::SetFn("len".into()),
+        Op::Toggle(true),
+        Op::Toggle(false),
+        Op::CloneCtx,
+    ]);
     ops
 }
 
@@ -270,7 +284,7 @@ pub fn check_state(live: &Live, names: &[&str], report: &mut dyn FnMut(&str, Str
         report("state/iter_variable_names", format!("{:?}", names_exp), format!("{:?}", names_got));
     }
     // function lookup
-    for f in ["f", "g", "h"] {
+    for f in ["f", "g", "h", "typeof", "len"] {
         let r = c.call_function(f, &Value::Int(7));
         let has = m.funs.contains_key(f);
         let ok = match &r {
@@ -286,14 +300,21 @@ pub fn check_state(live: &Live, names: &[&str], report: &mut dyn FnMut(&str, Str
     if c.are_builtin_functions_disabled() != m.builtins_off {
         report("state/builtin-switch", format!("disabled = {}", m.builtins_off), format!("disabled = {}", c.are_builtin_functions_disabled()));
     }
+    // a user function (identity) named typeof takes precedence; else the builtin unless disabled
     let t = api::eval_str("typeof(1)", c);
+    let user = m.funs.contains_key("typeof");
     let ok = match &t {
-        Got::Val(RV::Str(s)) => s == "int" && !m.builtins_off,
-        Got::Err(ErrClass::UnknownFn(n), _) => n == "typeof" && m.builtins_off,
+        Got::Val(RV::Int(1)) => user,
+        Got::Val(RV::Str(s)) => s == "int" && !m.builtins_off && !user,
+        Got::Err(ErrClass::UnknownFn(n), _) => n == "typeof" && m.builtins_off && !user,
         _ => false,
     };
     if !ok {
-        report("state/builtin-switch-effect", format!("typeof(1) {}", if m.builtins_off { "unknown" } else { "= \"int\"" }), t.show());
+        report(
+            "state/function-lookup-effect",
+            format!("typeof(1) {}", if user { "= 1 (user function)" } else if m.builtins_off { "unknown" } else { "= \"int\"" }),
+            t.show(),
+        );
     }
 }
 
